@@ -33,7 +33,11 @@ void nsSinceEpochToBrokenDownTimeUTC(std::chrono::nanoseconds sinceEpoch, Broken
   // assumption: system_clock measures Unix Time
   // (i.e., time since 1970.01.01 00:00:00 UTC, not counting leap seconds).
   // Valid since C++20, tested by unit tests.
-  const clock::time_point tp{std::chrono::duration_cast<clock::duration>(sinceEpoch)};
+  // round towards negative infinity, to keep tm_nsec non-negative before the epoch
+  auto seconds = std::chrono::duration_cast<std::chrono::seconds>(sinceEpoch);
+  if (std::chrono::nanoseconds{seconds} > sinceEpoch) { seconds -= std::chrono::seconds{1}; }
+
+  const clock::time_point tp{std::chrono::duration_cast<clock::duration>(seconds)};
   const std::time_t tt = clock::to_time_t(tp);
 
   #ifdef _WIN32
@@ -43,7 +47,6 @@ void nsSinceEpochToBrokenDownTimeUTC(std::chrono::nanoseconds sinceEpoch, Broken
   #endif
 
   // set the sub-second part
-  const auto seconds = std::chrono::duration_cast<std::chrono::seconds>(sinceEpoch);
   const std::chrono::nanoseconds remainder{sinceEpoch - seconds};
 
   dst.tm_nsec = int(remainder.count());
